@@ -282,3 +282,25 @@ REG.contract(T + "Term.get_component", params={"name": "str"}, returns="any", ta
              loops={1: Loop(invariant=["0 <= _i1", "_i1 <= len(self.components)",
                                        "forall(0, _i1, lambda j: cname(self.components[j]) != name)"])})
 FUNCTIONS += [T + "Term.get_component"]
+
+# ---- Term.set_type (C04 / C03): a term of several factors is an interaction, a single factor hands on its own kind ---------------------
+def ckind(c):
+    """the kind of a component (specification helper; executable)"""
+    return c.kind
+
+
+def _ckind(I, a, kw, node):
+    return I.getattr(a[0], "kind", node)
+
+
+REG.externals[f"{__name__}.ckind"] = _ckind
+_BAD = "not is_a(self.components[{k}], 'Variable') and not is_a(self.components[{k}], 'Call')"
+REG.contract(T + "Term.set_type", params={"data": "frame", "env": "any"}, tags=["C03", "C04"], modifies=["self.kind"],
+             requires=["len(self.components) >= 1"],
+             raises={"ValueError": "exists(0, len(self.components), lambda k: " + _BAD.format(k="k") + ")"},
+             ensures=["implies(len(self.components) > 1, self.kind == 'interaction')",
+                      "implies(len(self.components) == 1, self.kind == ckind(self.components[0]))",
+                      "self.components == old(self.components)"],
+             loops={1: Loop(invariant=["0 <= _i1", "_i1 <= len(self.components)",
+                                       "forall(0, _i1, lambda k: not (" + _BAD.format(k="k") + "))"])})
+FUNCTIONS += [T + "Term.set_type"]
